@@ -1,0 +1,109 @@
+//go:build verif
+
+package sftp
+
+import (
+	sshfx "github.com/pkg/sftp/internal/encoding/ssh/filexfer"
+)
+
+// VerifDecBInto decodes two frame bodies (type byte first) of the same packet type one after the other into the SAME
+// codec-B packet value - prev first, then body - and returns the value as it stands after the second decode.
+// Only the packet types whose values own slices that a decoder may reuse are covered (WRITE, DATA, NAME, ATTRS, OPEN,
+// SETSTAT, FSETSTAT, MKDIR); ok is false for any other type or when the two types differ.
+func VerifDecBInto(prev, body []byte) (p *VerifPacket, errKind string, panicked, ok bool) {
+	defer func() {
+		if r := recover(); r != nil {
+			p, errKind, panicked, ok = nil, "panic", true, true
+		}
+	}()
+	var r1, r2 sshfx.RawPacket
+	if err := r1.UnmarshalBinary(prev); err != nil {
+		return nil, "", false, false
+	}
+	if err := r2.UnmarshalBinary(body); err != nil {
+		return nil, "", false, false
+	}
+	if r1.PacketType != r2.PacketType {
+		return nil, "", false, false
+	}
+	id := r2.RequestID
+	var err error
+	switch r2.PacketType {
+	case sshfx.PacketTypeWrite:
+		var x sshfx.WritePacket
+		x.UnmarshalPacketBody(&r1.Data)
+		err = x.UnmarshalPacketBody(&r2.Data)
+		p = &VerifPacket{Kind: "write", ID: id, S1: x.Handle, N1: x.Offset, Data: x.Data}
+	case sshfx.PacketTypeData:
+		var x sshfx.DataPacket
+		x.UnmarshalPacketBody(&r1.Data)
+		err = x.UnmarshalPacketBody(&r2.Data)
+		p = &VerifPacket{Kind: "data", ID: id, Data: x.Data}
+	case sshfx.PacketTypeName:
+		var x sshfx.NamePacket
+		x.UnmarshalPacketBody(&r1.Data)
+		err = x.UnmarshalPacketBody(&r2.Data)
+		p = &VerifPacket{Kind: "name", ID: id}
+		for _, e := range x.Entries {
+			p.Names = append(p.Names, VerifName{Name: e.Filename, Long: e.Longname, Attrs: verifAttrsGated(&e.Attrs)})
+		}
+	case sshfx.PacketTypeAttrs:
+		var x sshfx.AttrsPacket
+		x.UnmarshalPacketBody(&r1.Data)
+		err = x.UnmarshalPacketBody(&r2.Data)
+		a := verifAttrsGated(&x.Attrs)
+		p = &VerifPacket{Kind: "attrs", ID: id, Attrs: &a}
+	case sshfx.PacketTypeOpen:
+		var x sshfx.OpenPacket
+		x.UnmarshalPacketBody(&r1.Data)
+		err = x.UnmarshalPacketBody(&r2.Data)
+		a := verifAttrsGated(&x.Attrs)
+		p = &VerifPacket{Kind: "open", ID: id, S1: x.Filename, N1: uint64(x.PFlags), N2: uint64(a.Flags), Attrs: &a}
+	case sshfx.PacketTypeSetstat:
+		var x sshfx.SetstatPacket
+		x.UnmarshalPacketBody(&r1.Data)
+		err = x.UnmarshalPacketBody(&r2.Data)
+		a := verifAttrsGated(&x.Attrs)
+		p = &VerifPacket{Kind: "setstat", ID: id, S1: x.Path, N2: uint64(a.Flags), Attrs: &a}
+	case sshfx.PacketTypeFSetstat:
+		var x sshfx.FSetstatPacket
+		x.UnmarshalPacketBody(&r1.Data)
+		err = x.UnmarshalPacketBody(&r2.Data)
+		a := verifAttrsGated(&x.Attrs)
+		p = &VerifPacket{Kind: "fsetstat", ID: id, S1: x.Handle, N2: uint64(a.Flags), Attrs: &a}
+	case sshfx.PacketTypeMkdir:
+		var x sshfx.MkdirPacket
+		x.UnmarshalPacketBody(&r1.Data)
+		err = x.UnmarshalPacketBody(&r2.Data)
+		a := verifAttrsGated(&x.Attrs)
+		p = &VerifPacket{Kind: "mkdir", ID: id, S1: x.Path, N2: uint64(a.Flags), Attrs: &a}
+	default:
+		return nil, "", false, false
+	}
+	if err != nil {
+		return nil, VerifErrKind(err), false, true
+	}
+	return p, "ok", false, true
+}
+
+// verifAttrsGated reads a codec-B Attributes value as the wire sees it: a field counts only when its flag is set
+// (the decoder deliberately leaves unflagged fields of a reused value alone).
+func verifAttrsGated(x *sshfx.Attributes) VerifAttrs {
+	a := verifAttrsFromSshfx(x)
+	if a.Flags&sshFileXferAttrSize == 0 {
+		a.Size = 0
+	}
+	if a.Flags&sshFileXferAttrUIDGID == 0 {
+		a.UID, a.GID = 0, 0
+	}
+	if a.Flags&sshFileXferAttrPermissions == 0 {
+		a.Perm = 0
+	}
+	if a.Flags&sshFileXferAttrACmodTime == 0 {
+		a.Atime, a.Mtime = 0, 0
+	}
+	if a.Flags&sshFileXferAttrExtended == 0 {
+		a.Ext = nil
+	}
+	return a
+}
